@@ -452,7 +452,8 @@ Section Mux.
   | OpBlock (p : path) (b : block)
   | OpCheck (raw : bytes)
   | OpSimulate (raw : bytes)
-  | OpPrune.
+  | OpPrune
+  | OpStale (st : stale).            (* a consensus round that fails after Prepare/ProcessProposal *)
 
   (* replica = node + its check state *)
   Definition replica := (node * state)%type.
@@ -469,6 +470,7 @@ Section Mux.
       | OpCheck raw => Some ((n, fst (check_tx n cs raw)), outs)
       | OpSimulate raw => let _ := simulate_tx n raw in Some ((n, cs), outs)
       | OpPrune => Some ((n, cs), outs)
+      | OpStale st => Some ((apply_stale n st, cs), outs)
       end
     end.
   Definition run (n : node) (ops : list op) : option (replica * list outputs) :=
